@@ -76,12 +76,24 @@ PREP_UNITS = {"quick": ["prep_unit_n2_noincl", "prep_unit_n2_h1", "prep_unit_n2_
               "thorough": ["prep_unit_n2_noincl", "prep_unit_n2_h0", "prep_unit_n2_h1", "prep_unit_n2_h2", "prep_unit_n3_h1"]}
 
 
-def unit_serve(select, panic_tags=("C13",), precond=False, mp=None, prep=False):
+def unit_serve(select, panic_tags=("C13",), precond=False, mp=None, prep=False, qkey=None, qcap=1):
     """select(cfg) -> bool picks generated serve_cfg instances; precond adds the precond_gNN groups;
-    mp(cfg) -> bool picks one-poll instances of the MultipartStream state machine."""
+    mp(cfg) -> bool picks one-poll instances of the MultipartStream state machine.
+    qkey: in the quick tier at most `qcap` instances per value of qkey(cfg) are kept (serve-level
+    instances cost 1-8 minutes and 5-25 GB each); the thorough tier runs all of them."""
 
     def harnesses(tier, meta):
-        hs = ["serving::verif_h::gen::" + n for n, c in sorted(meta["serve"].items()) if select and select(c)]
+        names = [n for n, c in sorted(meta["serve"].items()) if select and select(c)]
+        if tier == "quick" and qkey:
+            seen = {}
+            kept = []
+            for n in names:
+                k = qkey(meta["serve"][n])
+                if seen.get(k, 0) < qcap:
+                    seen[k] = seen.get(k, 0) + 1
+                    kept.append(n)
+            names = kept
+        hs = ["serving::verif_h::gen::" + n for n in names]
         if precond:
             hs += ["serving::verif_h::pgen::" + n for n in sorted(meta["precond"])]
         if mp:
